@@ -355,6 +355,8 @@ package vuego
 //@   loop 1 use chainEndMono(nodes, idx, lastChainNodeIdx), chainEndMono(nodes, idx + 1, lastChainNodeIdx), chainEndMono(nodes, idx + 1, idx)
 
 //@ func (v *Vue) evalVFor(ctx, node, nodes, depth) (res, skip, err)
+//@   assert C01.eval.once: false at "never call evalAttributes"
+//@   assert C01.eval.once.html: false at "never call evalVHtml"
 //@   requires C11.depth.vfor: depth <= maxEvalDepth
 //@   decreases maxEvalDepth + 10 - depth, 1
 //@   requires C04.head: len(nodes) >= 1
@@ -490,6 +492,7 @@ package vuego
 //@ func (v *Vue) mergeStyles(staticStyle, boundStyle) (r)
 //@   modifies nothing
 //@ func (v *Vue) evalAttributes(ctx, n) (res, err)
+//@   assert C01.carrier.verbatim: key != "data-v-html-content" && key != "data-v-text-content" at "call interpolate"
 //@   modifies n.Attr, caches(v)
 //@   loop 0 invariant frame.locals: (len(newAttrs) == 0 || fresh(newAttrs)) && fresh(results) && results != nil
 //@   loop 1 invariant frame.locals: (len(newAttrs) == 0 || fresh(newAttrs)) && fresh(results) && results != nil
@@ -583,6 +586,8 @@ package vuego
 //@   ensures C04+C05.balance: BALANCED(ctx)
 
 //@ func (v *Vue) evaluateNodeAsElement(ctx, node, depth) (res, err)
+//@   assert C01.eval.once: $arg1 == newNode at "call evalAttributes"
+//@   assert C01.eval.once.html: $arg1 == newNode at "call evalVHtml"
 //@   requires C11.depth.element: depth <= maxEvalDepth
 //@   decreases maxEvalDepth + 10 - depth, 0
 //@   holds ctx.stack
